@@ -1317,6 +1317,13 @@ def np_random_randint(low, high=None, size=None):
 
 
 def np_random_normal(loc=0.0, scale=1.0, size=None):
+    if isinstance(size, (tuple, list)) and len(size) == 2 and isinstance(size[1], int):
+        # an (n, k) block of independent draws: k columns of n
+        n, k = size
+        g = RNG.advance('normal', [n, k])
+        loc, scale = _num(loc), _num(scale)
+        cols = [loc + scale * Lane(ir.uf('rng.normal.elem2', [g, to_term(n), ir.const(j), values.IDX]), n) for j in range(k)]
+        return Arr2(cols, n)
     g = RNG.advance('normal', [size if size is not None else 1])
     loc, scale = _num(loc), _num(scale)
     if size is None:
@@ -2457,6 +2464,21 @@ def np_linalg_solve(A, B):
 
 
 NP._table['linalg'] = Stub('numpy.linalg', {'cond': np_linalg_cond, 'inv': np_linalg_inv, 'solve': np_linalg_solve})
+def np_isinf(x):
+    f = lambda t: ir.or_(ir.eq(t, ir.INF), ir.eq(t, ir.NINF))
+    if isinstance(x, Lane):
+        return x.fresh_like(f(x.t))
+    if isinstance(x, Sym):
+        return Sym(f(x.t))
+    if isinstance(x, Arr2):
+        return Arr2([c.fresh_like(f(c.t)) for c in x.cols], x.n)
+    if isinstance(x, (int, float)):
+        return x in (float('inf'), float('-inf'))
+    raise Unsupported('np.isinf(%r)' % (x,))
+
+
+NP._table['isinf'] = np_isinf
+NP._table['errstate'] = lambda *a, **k: _WarnCM()     # floating-point warnings only: no effect on values (reals)
 NP._table['ascontiguousarray'] = lambda x, dtype=None, **k: np_asarray(x, dtype)
 
 
@@ -3027,6 +3049,13 @@ def _ca_getattr2(self, interp, name):
         return lambda *a, **k: f(self, *a, **k)
     if name == 'dot':
         return lambda other: _concarr_binop(self, interp, 'MatMult', other, False)
+    if name == 'item':
+        def item():
+            flat = _flat(self.data) if self.data and isinstance(self.data[0], list) else list(self.data)
+            if len(flat) != 1:
+                _raise('ValueError', 'can only convert an array of size 1 to a Python scalar')
+            return flat[0]
+        return item
     if name == 'ravel' or name == 'flatten':
         return lambda: ConcArr(_flat(self.data) if self.data and isinstance(self.data[0], list) else list(self.data))
     if name == 'dtype':
